@@ -594,70 +594,78 @@ def check_emission(ctx, repo):
             return v.attrs.get("expr"), v.attrs.get("_keys")
         return None, None
 
-    # binary_operator with a recorder on the right
+    # binary_operator with a recorder / a plain number on the right, for every binary operator of the registry
+    reg = operator_registry(repo)
+    binary_ops = [n for n, row in reg.items() if "Unary" not in row.dict_class]
+    unary_ops = [n for n, row in reg.items() if "Unary" in row.dict_class]
     q = f"{TR}.binary_operator"
     fn = ctx.func(q)
     for other_kind in ("recorder", "number"):
-        calls.clear()
-        alg = algebra()
-        a = rec("EXPR_A", "KEYS_A", alg)
-        b = rec("EXPR_B", "KEYS_B", alg) if other_kind == "recorder" else 5
-        it = make_interp(repo)
-        c = f"{q}#{other_kind}"
-        try:
-            out = it.run(q, [a, b, "gp"])
-        except NoValue as exc:
-            raise Unknown(c, str(exc), fn)
-        expr, keys = result_fields(out[1]) if out[0] == "return" else (None, None)
-        if expr is None or len(calls) != 1:
-            raise Unknown(c, f"unrecognised result {out!r} after {len(calls)} cache lookups", fn)
-        opname, key = calls[0]
-        want_key = ("KEYS_A", "KEYS_B") if other_kind == "recorder" else ("KEYS_A", (0,))
-        got_key = tuple(k.attrs["fmt"] if isinstance(k, Obj) else k for k in key) if isinstance(key, tuple) else key
-        want_expr = "FN1(EXPR_A, EXPR_B)" if other_kind == "recorder" else "FN1(EXPR_A, (5,))"
-        problems = []
-        if opname != "gp":
-            problems.append(f"looks up operator {opname!r} instead of the requested one")
-        if got_key != want_key:
-            problems.append(f"cache lookup key is {got_key}, expected {want_key} (operand order / scalar key)")
-        if not isinstance(expr, str) or expr.replace(" ", "") != want_expr.replace(" ", ""):
-            problems.append(f"emitted call is {expr!r}, expected {want_expr!r}")
-        if not (isinstance(keys, Obj) and keys.attrs.get("fmt") == "KEYS_OUT1"):
-            problems.append("recorded keys are not the keys_out of the same cache lookup")
-        if problems:
-            ctx.violation(c, "; ".join(problems), fn)
+        bad_ops = []
+        for requested in binary_ops:
+            calls.clear()
+            alg = algebra()
+            a = rec("EXPR_A", "KEYS_A", alg)
+            b = rec("EXPR_B", "KEYS_B", alg) if other_kind == "recorder" else 5
+            it = make_interp(repo)
+            c = f"{q}#{other_kind}"
+            try:
+                out = it.run(q, [a, b, requested])
+            except NoValue as exc:
+                raise Unknown(c, str(exc), fn)
+            expr, keys = result_fields(out[1]) if out[0] == "return" else (None, None)
+            if expr is None or len(calls) != 1:
+                raise Unknown(c, f"unrecognised result {out!r} after {len(calls)} cache lookups (operator {requested})", fn)
+            opname, key = calls[0]
+            want_key = ("KEYS_A", "KEYS_B") if other_kind == "recorder" else ("KEYS_A", (0,))
+            got_key = tuple(k.attrs["fmt"] if isinstance(k, Obj) else k for k in key) if isinstance(key, tuple) else key
+            want_expr = "FN1(EXPR_A, EXPR_B)" if other_kind == "recorder" else "FN1(EXPR_A, (5,))"
+            problems = []
+            if opname != requested:
+                problems.append(f"operator {requested!r} requested, {opname!r} looked up and recorded")
+            if got_key != want_key:
+                problems.append(f"{requested}: cache lookup key is {got_key}, expected {want_key} (operand order / scalar key)")
+            if not isinstance(expr, str) or expr.replace(" ", "") != want_expr.replace(" ", ""):
+                problems.append(f"{requested}: emitted call is {expr!r}, expected {want_expr!r}")
+            if not (isinstance(keys, Obj) and keys.attrs.get("fmt") == "KEYS_OUT1"):
+                problems.append(f"{requested}: recorded keys are not the keys_out of the same cache lookup")
+            bad_ops.extend(problems)
+        if bad_ops:
+            ctx.violation(c, "; ".join(bad_ops[:4]) + (f" (+{len(bad_ops) - 4} more)" if len(bad_ops) > 4 else ""), fn)
         else:
-            ctx.ok(c, fn, emitted=expr, lookup=got_key)
+            ctx.ok(c, fn, operators=len(binary_ops))
 
     q = f"{TR}.unary_operator"
     fn = ctx.func(q)
-    calls.clear()
-    alg = algebra()
-    it = make_interp(repo)
-    try:
-        out = it.run(q, [rec("EXPR_A", "KEYS_A", alg), "reverse"])
-    except NoValue as exc:
-        raise Unknown(q, str(exc), fn)
-    expr, keys = result_fields(out[1]) if out[0] == "return" else (None, None)
-    if expr is None or len(calls) != 1:
-        raise Unknown(q, f"unrecognised result {out!r}", fn)
     problems = []
-    if calls[0][0] != "reverse":
-        problems.append(f"looks up operator {calls[0][0]!r}")
-    k = calls[0][1]
-    if not (isinstance(k, Obj) and k.attrs.get("fmt") == "KEYS_A"):
-        problems.append("cache lookup key is not the recorder's own key tuple")
-    if not isinstance(expr, str) or expr.replace(" ", "") != "FN1(EXPR_A)":
-        problems.append(f"emitted call is {expr!r}, expected 'FN1(EXPR_A)'")
-    if not (isinstance(keys, Obj) and keys.attrs.get("fmt") == "KEYS_OUT1"):
-        problems.append("recorded keys are not the keys_out of the same cache lookup")
+    for requested in unary_ops:
+        calls.clear()
+        alg = algebra()
+        it = make_interp(repo)
+        try:
+            out = it.run(q, [rec("EXPR_A", "KEYS_A", alg), requested])
+        except NoValue as exc:
+            raise Unknown(q, str(exc), fn)
+        expr, keys = result_fields(out[1]) if out[0] == "return" else (None, None)
+        if expr is None or len(calls) != 1:
+            raise Unknown(q, f"unrecognised result {out!r} (operator {requested})", fn)
+        if calls[0][0] != requested:
+            problems.append(f"operator {requested!r} requested, {calls[0][0]!r} looked up and recorded")
+        k = calls[0][1]
+        if not (isinstance(k, Obj) and k.attrs.get("fmt") == "KEYS_A"):
+            problems.append(f"{requested}: cache lookup key is not the recorder's own key tuple")
+        if not isinstance(expr, str) or expr.replace(" ", "") != "FN1(EXPR_A)":
+            problems.append(f"{requested}: emitted call is {expr!r}, expected 'FN1(EXPR_A)'")
+        if not (isinstance(keys, Obj) and keys.attrs.get("fmt") == "KEYS_OUT1"):
+            problems.append(f"{requested}: recorded keys are not the keys_out of the same cache lookup")
     if problems:
-        ctx.violation(q, "; ".join(problems), fn)
+        ctx.violation(q, "; ".join(problems[:4]), fn)
     else:
-        ctx.ok(q, fn, emitted=expr)
+        ctx.ok(q, fn, operators=len(unary_ops))
 
 
-@rule("C11.emission-pairing", props=["C11"], min_instances=3, mutants=[
+@rule("C11.emission-pairing", props=["C11", "C03"], min_instances=3, mutants=[
+    ("products with a plain number are recorded as the geometric product", ("taperecorder", "            # Assume scalar\n", "            if operator in ('op', 'ip', 'lc', 'rc', 'sp', 'acp'):\n                operator = 'gp'\n")),
     ("emit operands in swapped order", ("taperecorder", "expr = f'{func.__name__}({self.expr}, {other.expr})'", "expr = f'{func.__name__}({other.expr}, {self.expr})'")),
     ("swapped lookup key", ("taperecorder", "getattr(self.algebra, operator)[self.keys(), other.keys()]", "getattr(self.algebra, operator)[other.keys(), self.keys()]")),
     ("scalar emitted bare", ("taperecorder", "expr = f'{func.__name__}({self.expr}, ({other},))'", "expr = f'{func.__name__}({self.expr}, {other})'")),
@@ -668,7 +676,8 @@ def emission_pairing(ctx):
 
 
 # --------------------------------------------------------------------------- do_compile template
-@rule("C11.do-compile", props=["C11", "C09"], min_instances=2, mutants=[
+@rule("C11.do-compile", props=["C11", "C09", "C04", "C08"], min_instances=2, mutants=[
+    ("output keys re-sorted into canonical order, values not", ("codegen", "    return CodegenOutput(\n        res.keys() if not isinstance(res, str) else (0,), func\n    )", "    keys_out = res.keys() if not isinstance(res, str) else (0,)\n    keys_out = tuple(k for k in algebra.canon2bin.values() if k in keys_out)\n    return CodegenOutput(keys_out, func)")),
     ("compiled function lists its parameters in reverse", ("codegen", "    funcstr = f\"def {funcname}({', '.join(t.expr for t in tapes)}):\"", "    funcstr = f\"def {funcname}({', '.join(t.expr for t in reversed(tapes))}):\"")),
     ("compiled function returns the recorder of the first argument", ("codegen", "        funcstr += f\"    return {res.expr}\"", "        funcstr += f\"    return {tapes[0].expr}\"")),
     ("compiled in a private namespace", ("codegen", "    exec(c, namespace, funclocals)\n    # mtime has to be None or else linecache.checkcache will remove it\n    linecache.cache[filename] = (len(funcstr), None, funcstr.splitlines(True), filename) # type: ignore\n\n    func = funclocals[funcname]\n    return CodegenOutput(\n        res.keys()", "    exec(c, {}, funclocals)\n    # mtime has to be None or else linecache.checkcache will remove it\n    linecache.cache[filename] = (len(funcstr), None, funcstr.splitlines(True), filename) # type: ignore\n\n    func = funclocals[funcname]\n    return CodegenOutput(\n        res.keys()")),
@@ -687,7 +696,8 @@ def do_compile_rule(ctx):
         alg = rep_algebra(3, extra_attrs={"numspace": numspace})
         tapes = [Obj("TapeRecorder", {"algebra": alg, "expr": n, "_keys": k, "type_number": 7 + i}, {"keys": lambda k=k: k})
                  for i, (n, k) in enumerate((("a", (1, 2)), ("b", (4,))))]
-        res = Obj("TapeRecorder", {"algebra": alg, "expr": "gp_1(a, b)", "_keys": (5, 6)}, {"keys": lambda: (5, 6)}) if result is None else result
+        # the recorded result is stored in NON-canonical key order: the keys must be reported in the order of the values
+        res = Obj("TapeRecorder", {"algebra": alg, "expr": "gp_1(a, b)", "_keys": (6, 5)}, {"keys": lambda: (6, 5)}) if result is None else result
         codegen = Obj("function", {"__name__": "user_fn"}, call=lambda *a: res)
         sources, execs = [], []
         it = make_interp(repo)
@@ -729,9 +739,10 @@ def do_compile_rule(ctx):
         if not execs or execs[-1] is not numspace:
             problems.append("the source is not executed in the algebra's name space, so the recorded callee names cannot be resolved")
         keys = out[1].attrs.get("keys_out") if isinstance(out[1], Obj) else None
-        want_keys = (5, 6) if result is None else (0,)
+        want_keys = (6, 5) if result is None else (0,)
         if keys is None or tuple(keys) != want_keys:
-            problems.append(f"returns keys {keys!r}, expected {want_keys!r}")
+            problems.append(f"returns keys {keys!r}, expected {want_keys!r} (the key order of the recorded result, which is the order "
+                            f"in which the compiled function returns the values)")
         if problems:
             ctx.violation(c, "; ".join(problems) + f" | emitted: {sources[-1]!r}", fn)
         else:
